@@ -20,6 +20,7 @@ Record rq := mkRq {
 Record ev := mkEv { e_enter : bool; e_id : N; e_m : string; e_node : N; e_entry : N; e_h : N }.
 
 Inductive lcase :=
+| COpens (opens : nat)                              (* max number of File.Open calls on one backend File (two fids on one File: Txattrwalk) *)
 | CRv (a b : rq) (entered bdone : bool) (opens : nat)
 | CLog (events : list ev)
 | CIso (client : nat) (concurrent alone : list N)
@@ -178,6 +179,7 @@ Definition property_holds (c : lcase) : bool :=
   | CRv a b entered _ opens =>
       (negb entered || negb (doc_conflict (q_method a) (q_method b) (q_node a) (q_node b) (q_entry a) (q_entry b)))
       && Nat.leb opens 1
+  | COpens opens => Nat.leb opens 1
   | CLog events => log_ok [] [] events
   | CIso _ conc alone => nats_eqb conc alone
   | CAnswered issued answered shutdown => N.eqb issued answered && shutdown
